@@ -5,9 +5,13 @@
 (* ndjson line per request + response:                                     *)
 (*   reset  h, vt                      a new swamp (history h) of value    *)
 (*                                     type vt                             *)
-(*   set    k, rec                     Set of key k; rec = the record as   *)
-(*                                     Get returns it afterwards           *)
-(*   del    k                          Delete of key k                     *)
+(*   write  op, touched, store         any write request (Set, Delete,     *)
+(*                                     ShiftByKeys, ShiftExpiredTreasures, *)
+(*                                     PatchExpiredTreasures,              *)
+(*                                     PatchTreasures, Increment<T>); the  *)
+(*                                     keys it addressed and the content   *)
+(*                                     of the swamp as GetAll returns it   *)
+(*                                     afterwards                          *)
 (*   read   via, q, err, r             GetByIndex ("unary") or             *)
 (*                                     GetByIndexStream ("stream") with    *)
 (*                                     request q; r = the returned records *)
@@ -64,22 +68,36 @@ TrReset ==
   /\ dead' = FALSE /\ hist' = Trace[l].h
   /\ UNCHANGED cache
 
-TrSet ==
-  /\ IsEvent("set")
-  /\ LET k == Trace[l].k
-         rec == [c |-> Trace[l].rec.c, u |-> Trace[l].rec.u, e |-> Trace[l].rec.e, v |-> Trace[l].rec.v]
-     IN IF k \in DOMAIN store
-          THEN /\ store' = [store EXCEPT ![k] = rec]
-               /\ poss' = [ko \in KO |-> UNION {EntryAfterUpdate(ko, cv, store', k) : cv \in poss[ko]}]
-          ELSE /\ store' = (k :> rec) @@ store
-               /\ poss' = [ko \in KO |-> UNION {EntryAfterInsert(ko, cv, store', k) : cv \in poss[ko]}]
-  /\ UNCHANGED <<vt, cache, dead, hist>>
+\* a write line carries the keys the request addressed (`touched`) and the content of the swamp afterwards
+\* (`store`, read back with GetAll).  Keys that vanished were deleted, new keys were inserted, touched keys that
+\* are still there were saved again (an update for the index machinery even when nothing changed).
+StoreOf(recs) ==
+  LET ks == {recs[i].k : i \in DOMAIN recs}
+      at(k) == CHOOSE i \in DOMAIN recs : recs[i].k = k
+  IN [k \in ks |-> [c |-> recs[at(k)].c, u |-> recs[at(k)].u, e |-> recs[at(k)].e, v |-> recs[at(k)].v]]
 
-TrDel ==
-  /\ IsEvent("del")
-  /\ LET k == Trace[l].k
-     IN /\ store' = [x \in DOMAIN store \ {k} |-> store[x]]
-        /\ poss' = [ko \in KO |-> {EntryAfterDelete(cv, k) : cv \in poss[ko]}]
+\* fold the per-key maintenance over the keys of S (any order: slices of one index only depend on the final store)
+EntryAfter(mode, ko, cv, st2, k) ==
+  CASE mode = "delete" -> {EntryAfterDelete(cv, k)}
+    [] mode = "insert" -> EntryAfterInsert(ko, cv, st2, k)
+    [] mode = "update" -> EntryAfterUpdate(ko, cv, st2, k)
+RECURSIVE ApplyKeys(_, _, _, _)
+ApplyKeys(P, S, st2, mode) ==
+  IF S = {} THEN P
+  ELSE LET k == CHOOSE x \in S : TRUE
+       IN ApplyKeys([ko \in KO |-> UNION {EntryAfter(mode, ko, cv, st2, k) : cv \in P[ko]}], S \ {k}, st2, mode)
+
+TrWrite ==
+  /\ IsEvent("write")
+  /\ LET new == StoreOf(Trace[l].store)
+         gone == DOMAIN store \ DOMAIN new
+         fresh == DOMAIN new \ DOMAIN store
+         again == ({Trace[l].touched[i] : i \in DOMAIN Trace[l].touched} \cap DOMAIN store) \cap DOMAIN new
+         p1 == ApplyKeys(poss, gone, new, "delete")
+         p2 == ApplyKeys(p1, fresh, new, "insert")
+         p3 == ApplyKeys(p2, again, new, "update")
+     IN /\ store' = new
+        /\ poss' = IF AsBuilt THEN p3 ELSE poss
   /\ UNCHANGED <<vt, cache, dead, hist>>
 
 RespKeys(r) == [i \in DOMAIN r |-> r[i].k]
@@ -106,7 +124,7 @@ TrRead ==
                  ELSE Report("asbuilt") /\ dead' = TRUE /\ poss' = built
   /\ UNCHANGED <<store, vt, cache, hist>>
 
-TraceNext == TrReset \/ TrSet \/ TrDel \/ TrRead
+TraceNext == TrReset \/ TrWrite \/ TrRead
 TraceSpec == TraceInit /\ [][TraceNext]_tvars
 
 \* every line is a step of the single behaviour
